@@ -55,6 +55,20 @@ def _calls(body):
                 yield blk, t, c, c["res"], False
 
 
+def _open_calls(body, bodies):
+    """Local calls of a body that the inliner would itself have to deal with: not the std trait impls of the crate, not thunks,
+    not the closures the tracing macros call on the spot."""
+    from cbcore import own_file
+    for blk, t, c, hid, is_cl in _calls(body):
+        if not is_cl and ((c.get("def") or "").startswith(SKIP_PREFIX) or c.get("crate") in SKIP_CRATES):
+            continue
+        if is_cl:
+            h = bodies.get(hid)
+            if h is None or h["kind"] != "closure" or h["arg_count"] < 2 or own_file(h["span"]).startswith(("dep:tracing", "dep:log")):
+                continue
+        yield hid
+
+
 def eligible(bodies, parents, hid, callee, is_closure=False, single_site=False):
     h = bodies.get(hid)
     if h is None:
@@ -183,7 +197,7 @@ def inline_local_calls(raw):
                 # every closure then still has exactly one construction site, and its lexical parent becomes the caller
                 single = (not is_cl and hid in parents and hid in bodies and sites.get(hid) == 1 and not bodies[hid].get("exported", True)
                           and hid not in used_as_value and hid != caller["id"] and caller["id"] not in _descendants(raw, hid))
-                if single and eligible(bodies, parents, hid, c, False, True) and not any(True for _ in _calls(bodies[hid])):
+                if single and eligible(bodies, parents, hid, c, False, True) and not any(True for _ in _open_calls(bodies[hid], bodies)):
                     inline_into(caller, blk, t, bodies[hid], False)
                     for b in raw["bodies"]:
                         if b["parent"] == hid and b["kind"] in ("closure", "coroutine"):
@@ -201,7 +215,7 @@ def inline_local_calls(raw):
                     continue
                 if hid not in pristine:
                     pristine[hid] = copy.deepcopy(bodies[hid])
-                if rnd == MAX_ROUNDS - 1 and any(True for _ in _calls(pristine[hid])):
+                if rnd == MAX_ROUNDS - 1 and any(True for _ in _open_calls(pristine[hid], bodies)):
                     left[hid] = left.get(hid, 0) + 1
                     continue
                 inline_into(caller, blk, t, pristine[hid], is_cl)
